@@ -3,8 +3,11 @@ package checks
 import (
 	"context"
 	"fmt"
+	"net/url"
+	"regexp"
 	"strings"
 	"sync"
+	"time"
 
 	authboss "github.com/volatiletech/authboss/v3"
 
@@ -71,7 +74,76 @@ func passwordBurst(seed int64, G, R int) (string, int) {
 	return "", checked
 }
 
+var c06MailTok = regexp.MustCompile(`token=([A-Za-z0-9_%=-]+)`)
+
+// c06LoginOverlapsChange: a login with the OLD password is in flight (suspended before each of its backend
+// calls in turn) while the recovery of the same account runs to completion. No module that saves the user
+// during a login is loaded, so whatever the login does afterwards, the change stands: the stored hash
+// verifies the new password only, a later login with the old one fails, with the new one succeeds.
+// In half of the units the configured bcrypt cost is above the cost of the stored hashes.
+func c06LoginOverlapsChange(c *RunCtx, unit int) {
+	cfg := world.Cfg{Modules: []string{"auth", "recover", "logout"}, Mount: "/auth", JSON: (unit/16)%2 == 1, RecoverTTL: time.Hour, BCryptCost: []int{0, 5}[(unit/8)%2]}
+	w, err := world.New(cfg, "c06-overlap")
+	if err != nil {
+		c.Stats.Inconclusive = append(c.Stats.Inconclusive, "world: "+err.Error())
+		return
+	}
+	pid, oldPw, newPw := "overlap@site.test", "0ldPassw0rd!", "N3wPassw0rd!"
+	w.Store.Put(&world.User{PID: pid, Email: pid, Password: sim.Hash4(oldPw), Confirmed: true})
+	bL, bR := world.NewBrowser(1), world.NewBrowser(2)
+	w.Do(bR, world.Req{Method: "POST", Path: w.P("/recover"), Form: map[string]string{"email": pid}})
+	tok := ""
+	if n := len(w.Mails); n > 0 {
+		if m := c06MailTok.FindStringSubmatch(w.Mails[n-1].Email.TextBody); m != nil {
+			tok, _ = url.QueryUnescape(m[1])
+		}
+	}
+	if tok == "" {
+		c.Stats.Inconclusive = append(c.Stats.Inconclusive, "c06 overlap: no recovery mail")
+		return
+	}
+	base := w.SaveState()
+	for at := 0; at < 8; at++ {
+		w.LoadState(base)
+		l, r := bL.Clone(), bR.Clone()
+		var inner *world.Rec
+		w.YieldedAt = nil
+		w.Yield = map[int]func(){at: func() {
+			inner = w.Do(r, world.Req{Method: "POST", Path: w.P("/recover/end"), Form: map[string]string{"token": tok, "password": newPw, "confirm_password": newPw}})
+		}}
+		w.Do(l, world.Req{Method: "POST", Path: w.P("/login"), Form: map[string]string{"email": pid, "password": oldPw}})
+		w.Yield = nil
+		if inner == nil {
+			break // the login makes fewer backend calls than that
+		}
+		c.Stats.Evaluations++
+		if u := inner.After.Users[pid]; u == nil || !sim.BcryptOK(u.Password, newPw) || inner.HandlerErr != "" {
+			continue // the change itself did not go through: nothing to demand
+		}
+		c.Stats.Count("old-password-login-overlapping-the-change")
+		c.Stats.Sig(fmt.Sprintf("overlap/change-before-%s#%d/cost=%d/%s", w.YieldedAt[0], at, cfg.BCryptCost, modeOf(cfg)))
+		bad := ""
+		if u := w.Store.Peek(pid); u == nil || !sim.BcryptOK(u.Password, newPw) || sim.BcryptOK(u.Password, oldPw) {
+			bad = "the stored hash does not verify the new password only"
+		} else if rec := w.Do(world.NewBrowser(3), world.Req{Method: "POST", Path: w.P("/login"), Form: map[string]string{"email": pid, "password": oldPw}}); rec.SessOut["uid"] != "" {
+			bad = "the old password still logs in"
+		} else if rec := w.Do(world.NewBrowser(4), world.Req{Method: "POST", Path: w.P("/login"), Form: map[string]string{"email": pid, "password": newPw}}); rec.SessOut["uid"] != pid {
+			bad = "the new password does not log in"
+		}
+		if bad != "" {
+			v := vio("C06", "change-undone-by-overlapping-login", "a password recovery completed while a login with the old password was in flight (suspended before its backend call #%d, %s; configured bcrypt cost %d, stored cost 4): afterwards %s", at, w.YieldedAt[0], w.AB.Config.Modules.BCryptCost, bad)
+			c.Stats.Violations = append(c.Stats.Violations, sim.VioRec{Violation: *v, Index: unit, Cfg: cfg.String(), History: []string{"POST /recover", "L: POST /login (old password) suspended", "R: POST /recover/end (new password)", "L resumes"}})
+			w.LoadState(base)
+			return
+		}
+	}
+	w.LoadState(base)
+}
+
 func c06Unit(c *RunCtx, unit int) {
+	if unit%8 == 4 {
+		c06LoginOverlapsChange(c, unit)
+	}
 	if unit%40 == 0 {
 		// "no other account's password is affected" — also when many accounts change theirs at once
 		if msg, n := passwordBurst(c.Seed*1000+int64(unit), 16, 60); msg != "" {
@@ -405,11 +477,11 @@ func c06Unit(c *RunCtx, unit int) {
 func init() {
 	register(&Check{
 		ID: "C06", Level: "exploration",
-		Rule:  "per unit two rounds: 0-3 remember cookies of the target on as many browsers plus one of a bystander (when the remember module is loaded), then a password change by recovery link or programmatic update (in some units with the remember-token purge failing: a change that still reports success is held to every clause; in others with a login by the OLD password running to completion between two of the change's backend calls) with old/new pairs from {fresh, identical, 1 byte, 71/72/73 bytes, non-ASCII, NUL-containing, policy-violating}; afterwards real requests: every earlier cookie presented from a session-less browser, the bystander's cookie, the spent recovery token again, login with the old and the new password on a clean browser, login of the bystander; plus direct inspection of the stored hash (bcrypt shape, verifies new, not old unless bcrypt-equivalent) and of the diff (only the target's record/token rows). Plus, in every 40th unit, a burst on a real instance: 16 accounts change their passwords through Authboss.UpdatePassword at the same moment, 60 rounds; after each round every stored hash verifies its own account's new password and none of its neighbours'. distinct_nontrivial = distinct (route, new-password class, #cookies, remember loaded, login-after-recovery, mode, applied) signatures.",
+		Rule:  "per unit two rounds: 0-3 remember cookies of the target on as many browsers plus one of a bystander (when the remember module is loaded), then a password change by recovery link or programmatic update (in some units with the remember-token purge failing: a change that still reports success is held to every clause; in others with a login by the OLD password running to completion between two of the change's backend calls) with old/new pairs from {fresh, identical, 1 byte, 71/72/73 bytes, non-ASCII, NUL-containing, policy-violating}; afterwards real requests: every earlier cookie presented from a session-less browser, the bystander's cookie, the spent recovery token again, login with the old and the new password on a clean browser, login of the bystander; plus direct inspection of the stored hash (bcrypt shape, verifies new, not old unless bcrypt-equivalent) and of the diff (only the target's record/token rows). Plus, in every 40th unit, a burst on a real instance: 16 accounts change their passwords through Authboss.UpdatePassword at the same moment, 60 rounds; after each round every stored hash verifies its own account's new password and none of its neighbours'. Plus, in every 8th unit, a login with the OLD password suspended before each of its backend calls while the recovery of the same account runs to completion (no module that saves during a login loaded; in half of these units the configured bcrypt cost is above the stored hashes' cost): afterwards the stored hash verifies the new password only, the old one does not log in, the new one does. distinct_nontrivial = distinct (route, new-password class, #cookies, remember loaded, login-after-recovery, mode, applied) signatures.",
 		Units: func(t string) int { return tierN(t, 320, 15000) },
 		Run:   c06Unit,
 		Floors: func(t string) map[string]int {
-			return map[string]int{"change-applied:recover": 40, "change-applied:update": 20, "old-cookie-presented": 40, "bystander-cookie-ok": 30, "old-password-tried": 50, "token-replayed": 30, "change-refused:long73": 5, "hashes-checked-after-concurrent-changes": 1000}
+			return map[string]int{"change-applied:recover": 40, "change-applied:update": 20, "old-cookie-presented": 40, "bystander-cookie-ok": 30, "old-password-tried": 50, "token-replayed": 30, "change-refused:long73": 5, "hashes-checked-after-concurrent-changes": 1000, "old-password-login-overlapping-the-change": 20}
 		},
 		Assumptions: []string{"programmatic UpdatePassword has no policy of its own: only bcrypt's 72-byte limit refuses a value there"},
 	})
